@@ -52,12 +52,110 @@ def sepD (s₁ s₂ : Side) (d : Nat) (R : Rel) (a b : Nat) : Bool :=
     inR s₁ s₂ d R k' z && inR s₁ s₂ d R k'' z && inR s₁ s₂ d R s' t
   | _, _ => false
 
+/-! ### the instrumented graph: a trailing separator makes the run diverge
+
+`trapNode g i` replaces the separator `s` of `i = OneOrMore(k, sep=s)` by the *guarded* separator
+`Sequence[s, And(OrderedChoice[k, ω])]` with `ω = Sequence[ω]` (a node that never terminates): the
+guarded separator behaves like `s` when an element follows it, and the whole run runs out of fuel
+(for every fuel) when it does not.  `∃ n, parse (trap g is) L n top false 0 ≠ .fuel` therefore says:
+*the actual run of `g` on this input meets no trailing separator at the nodes `is`* — only the positions
+the parser really visits count. -/
+
+def trapNode (g : Graph) (i : Nat) : Graph :=
+  match g.get i with
+  | some nd =>
+    match nd.kind, nd.kids, nd.sep with
+    | .plus, [k], some s =>
+      let n := g.size
+      { g with
+        size := n + 4
+        node := fun j =>
+          if j = i then some { nd with sep := some n }
+          else if j = n then some { kind := .seq, kids := [s, n + 1] }
+          else if j = n + 1 then some { kind := .andP, kids := [n + 2] }
+          else if j = n + 2 then some { kind := .choice, kids := [k, n + 3] }
+          else if j = n + 3 then some { kind := .seq, kids := [n + 3] }
+          else g.get j }
+    | _, _, _ => g
+  | none => g
+
+def trap (g : Graph) (is : List Nat) : Graph := is.foldl trapNode g
+
+def kidsOf (g : Graph) (a : Nat) : List Nat :=
+  match g.get a with
+  | some nd => nd.kids
+  | none => []
+
+/-- the node ids of a guarded separator `a = Sequence[t, an]`, `an = And(ch)`, `ch = OrderedChoice[z, w]` -/
+def guardParts (g : Graph) (a : Nat) : Option (Nat × Nat × Nat × Nat × Nat) :=
+  match kidsOf g a with
+  | [t, an] =>
+    (match kidsOf g an with
+     | [ch] =>
+       (match kidsOf g ch with
+        | [z, w] => some (t, an, ch, z, w)
+        | _ => none)
+     | _ => none)
+  | _ => none
+
+/-- `a = Sequence[t, And(OrderedChoice[z, w])]` with `w = Sequence[w]` -/
+def isGuard (g : Graph) (a t an ch z w : Nat) : Bool :=
+  (match g.get a with
+   | some nd => transparentSeq nd && nd.kids == [t, an]
+   | none => false) &&
+  (match g.get an with
+   | some nd => nd.kind == .andP && supported nd && !nd.suppress && nd.kids == [ch]
+   | none => false) &&
+  (match g.get ch with
+   | some nd => nd.kind == .choice && supported nd && !nd.suppress && nd.kids == [z, w]
+   | none => false) &&
+  (match g.get w with
+   | some nd => transparentSeq nd && nd.kids == [w]
+   | none => false)
+
+/-- well-formedness that excludes the result `.bad` -/
+def wfNode (g : Graph) (nd : Node) : Bool :=
+  supported nd && nd.kids.all (fun k => decide (k < g.size)) &&
+  (match nd.sep with
+   | some s => decide (s < g.size)
+   | none => true) &&
+  (match nd.kind with
+   | .opt | .star | .plus | .andP | .notP => nd.kids.length == 1
+   | .unord => false
+   | _ => true)
+
+def noBadB (g : Graph) : Bool :=
+  (match g.comments with
+   | some c => decide (c < g.size)
+   | none => true) &&
+  (List.range g.size).all fun a =>
+    match g.get a with
+    | some nd => wfNode g nd
+    | none => false
+
+/-- guarded separator on the left against the plain separator `b` on the right -/
+def guardC (s₁ s₂ : Side) (d : Nat) (R : Rel) (a b : Nat) : Bool :=
+  match guardParts s₁.g a with
+  | some (t, an, ch, z, w) =>
+    isGuard s₁.g a t an ch z w && onlyT s₁.sh t && onlyT s₁.sh z && noBadB s₁.g &&
+    decide (z < s₁.g.size) && inR s₁ s₂ d R t b
+  | none => false
+
+/-- node `i` is `OneOrMore(z, sep=G)` with `G` a guarded separator whose lookahead is `z` itself -/
+def trapOk (s : Side) (i : Nat) : Bool :=
+  match plusSep s.g i with
+  | some (z, G) =>
+    (match guardParts s.g G with
+     | some (t, an, ch, z', w) => isGuard s.g G t an ch z' w && z' == z && onlyT s.sh t && onlyT s.sh z
+     | none => false)
+  | none => false
+
 /-- `okPair` with exceptional pairs: those in `exC` / `exD` are justified by `sepC` / `sepD`
-(sound only under `NoTrailingSep` for the repetition node of the pair) -/
+(sound only under `NoTrailingSep` for the repetition node of the pair); `guardC` is an ordinary rule -/
 def okPairX (s₁ s₂ : Side) (H : Hyps) (d : Nat) (R : Rel) (exC exD : List (Nat × Nat)) (a b : Nat) : Bool :=
   if exC.contains (a, b) then sepC s₁ s₂ d R a b
   else if exD.contains (a, b) then sepD s₁ s₂ d R a b
-  else okPair s₁ s₂ H d R a b
+  else okPair s₁ s₂ H d R a b || guardC s₁ s₂ d R a b
 
 /-- `check` with the exceptional pairs `exC` (repetition node on the left) and `exD` (on the right) -/
 def checkX (s₁ s₂ : Side) (H : Hyps) (d : Nat) (R : Rel) (exC exD : List (Nat × Nat)) : Bool :=
